@@ -1,9 +1,9 @@
 package main
 
 // `lrref show 'S : A b | a ; A : empty ;'` prints the reference automaton of
-// a grammar given in the restricted form used by the sweep (nonterminals
-// S, A, B; everything else is a terminal).  It exists for checking the
-// reference by hand.
+// a grammar given by its syntax part (names starting with an upper-case letter
+// are nonterminals, everything else is a terminal).  It exists for checking
+// the reference by hand.
 
 import (
 	"fmt"
@@ -12,45 +12,57 @@ import (
 	"strings"
 )
 
+// parseSyntaxText reads a syntax part (`Head : alt | alt ; ...`, any
+// nonterminal names starting with an upper-case letter) and supplies the
+// lexical part: one single-character token per terminal name, sorted.
 func parseSyntaxText(src string) (*GSpec, error) {
-	s := &GSpec{Tier: "manual"}
-	rules := strings.Split(src, ";")
-	for _, r := range rules {
-		r = strings.TrimSpace(r)
-		if r == "" {
-			continue
-		}
-		hb := strings.SplitN(r, ":", 2)
-		if len(hb) != 2 {
-			return nil, fmt.Errorf("bad rule %q", r)
-		}
-		head := strings.TrimSpace(hb[0])
-		if len(s.Alts) >= len(ntNames) || head != ntNames[len(s.Alts)] {
-			return nil, fmt.Errorf("rule %d must define %v in this order, found %q", len(s.Alts)+1, ntNames, head)
-		}
-		var alts [][]string
-		for _, a := range strings.Split(hb[1], "|") {
-			f := strings.Fields(a)
-			if len(f) == 1 && f[0] == "empty" {
-				f = []string{}
-			}
-			alts = append(alts, f)
-		}
-		s.Alts = append(s.Alts, alts)
+	s, err := readGrammar(src)
+	if err != nil {
+		return nil, err
 	}
-	if len(s.Alts) == 0 {
-		return nil, fmt.Errorf("no rules")
+	s.Raw = ""
+	seen := map[string]bool{}
+	heads := map[string]bool{}
+	for _, p := range s.Flat {
+		heads[p.Head] = true
 	}
-	for _, alts := range s.Alts {
-		for _, a := range alts {
-			for _, sym := range a {
-				for i, n := range ntNames {
-					if sym == n && i >= len(s.Alts) {
-						return nil, fmt.Errorf("nonterminal %s is used but not defined", sym)
-					}
-				}
+	s.Lex = []string{}
+	for _, p := range s.Flat {
+		for _, sym := range p.Body {
+			if heads[sym] || sym == "error" || seen[sym] {
+				continue
+			}
+			seen[sym] = true
+			s.Lex = append(s.Lex, sym)
+		}
+	}
+	sort.Strings(s.Lex)
+	// group the alternatives per head when every head's productions are contiguous
+	var names []string
+	var alts [][][]string
+	closed := map[string]bool{}
+	grouped := true
+	for _, p := range s.Flat {
+		if len(names) == 0 || names[len(names)-1] != p.Head {
+			if closed[p.Head] {
+				grouped = false
+				break
+			}
+			if len(names) > 0 {
+				closed[names[len(names)-1]] = true
+			}
+			names = append(names, p.Head)
+			alts = append(alts, nil)
+		}
+		for k := range p.Body {
+			if p.Disp[k] != p.Body[k] {
+				grouped = false // string literal: keep the flat form with its display text
 			}
 		}
+		alts[len(alts)-1] = append(alts[len(alts)-1], p.Body)
+	}
+	if grouped {
+		s.Names, s.Alts, s.Flat = names, alts, nil
 	}
 	return s, nil
 }
